@@ -16,9 +16,19 @@ package kdcproxy
 //@   nopanic[C10]
 
 // every reader sends exactly one value, whatever the connection does
+// one kerberos message per kdc: a single datagram (udp) or a length prefixed message (tcp);
+// the result always carries the 4-byte length prefix the client expects
+//@ func readReply
+//@   requires[C10] conn: conn != nil
+//@   assigns region(arr.bv8), #connReads, #readFullOK
+//@   ensures[C20] udp: isUdp && result1 == nil ==> len(result0) >= 4 && int(be32(result0, 0)) == len(result0) - 4 && #connReads == old(#connReads) + 1
+//@   ensures[C20] tcp: !isUdp && result1 == nil ==> len(result0) == 4 + int(be32(result0, 0)) && be32(result0, 0) <= 131072
+//@   ensures[C20] failed: result1 != nil ==> result0 == nil
+//@   nopanic[C10]
+
 //@ func awaitReply
 //@   requires[C10] conn: conn != nil && reply != nil
-//@   assigns region(chan), region(arr.bv8)
+//@   assigns region(chan), region(arr.bv8), #connReads, #readFullOK
 //@   ensures[C20] once: chanSent(reply) == old(chanSent(reply)) + 1
 //@   spawn ghostset chanSent(reply) = old(chanSent(reply)) + 1
 //@   nopanic[C10]
@@ -28,16 +38,21 @@ package kdcproxy
 //@   assigns *
 //@   ghostset #kdcForwards = old(#kdcForwards) + 1
 //@   ensures[C20] silent: #status == old(#status) && #bodyWrites == old(#bodyWrites)
+// a reply that a reader got from a kdc is never dropped in favour of a reader that failed
+//@   requires noneYet: !#recvData
+//@   ensures[C20] keepsReply: resp == nil ==> !#recvData
+//@   ensures[C20] isReply: resp != nil ==> #recvData && err == nil
 //@   loop 2 invariant[C20] started: -1 <= rangeindex && rangeindex < len(kdcs) && 0 <= pending && pending <= rangeindex + 1 && chanSent(replies) == pending && chanRecvd(replies) == 0 && len(data) >= 4 && len(kdcs) <= 128
-//@   loop 3 invariant closing: -1 <= rangeindex
-//@   loop 4 invariant[C20] draining: 0 <= pending && 0 <= chanRecvd(replies) && chanRecvd(replies) <= chanSent(replies) && chanSent(replies) <= 128 && chanSent(replies) - chanRecvd(replies) == pending
+//@   loop 3 invariant[C20] waiting: 0 <= pending && 0 <= chanRecvd(replies) && chanRecvd(replies) <= chanSent(replies) && chanSent(replies) <= 128 && chanSent(replies) - chanRecvd(replies) == pending && (reply != nil) == #recvData
+//@   loop 4 invariant closing: -1 <= rangeindex
+//@   loop 5 invariant[C20] draining: 0 <= pending && 0 <= chanRecvd(replies) && chanRecvd(replies) <= chanSent(replies) && chanSent(replies) <= 128 && chanSent(replies) - chanRecvd(replies) == pending && (reply != nil ==> #recvData) && (reply == nil ==> pending == 0 && !#recvData)
 //@   site net.Conn.Write requires[C20] verbatim: (kdcs[i].Proto == "tcp" ==> arg1 == data) && (kdcs[i].Proto != "tcp" ==> arg1 == data[4:])
 //@   site net.Conn.Write requires[C20] deadline: #deadlineConn == arg0
 //@   nopanic[C10]
 
 //@ func (KerberosProxy).Handler
 //@   requires[C10] wf: r.Body != nil && k.krb5Config != nil && r.ContentLength >= -1
-//@   requires start: #status == 0 && #kdcForwards == 0 && #bodyWrites == 0
+//@   requires start: #status == 0 && #kdcForwards == 0 && #bodyWrites == 0 && !#recvData
 //@   assigns *
 //@   ensures[C20] method: old(r.Method) != "POST" ==> #status == 405 && #kdcForwards == 0
 //@   ensures[C20] length: old(r.Method) == "POST" && old(r.ContentLength) == -1 ==> #status == 411 && #kdcForwards == 0
